@@ -21,7 +21,9 @@ REQUIRED = ["payload_only_in_payload_msg", "private_payload_release_sound", "dec
             "fact_authenticator_selection", "release_only_to_listed_false", "release_only_to_listed_partial", "dummy_authenticator_only_without_tls", "configured_authn_sound",
             "fact_server_tls_config", "authenticated_certificate_is_verified",
             "connection_authenticated_only_via_authenticator", "fact_authenticate_call_sites",
-            "created_private_has_full_pal", "fact_encrypt_and_authenticator_stateless"]
+            "created_private_has_full_pal", "fact_encrypt_and_authenticator_stateless",
+            "fact_payload_presence_guards", "public_tx_admitted_only_with_payload",
+            "offloaded_certificate_needs_exactly_one_value", "fact_offloading_header_checks"]
 
 
 def run(ctx):
@@ -214,7 +216,7 @@ def run(ctx):
     # ---- oracle 5: the real server TLS configuration (newServerTLSConfig) over a real crypto/tls handshake: a client certificate that does
     # not chain to the trust store (self-signed, other CA, none) is never accepted, in TLS 1.2 and 1.3
     t_bad, tls_lines = 0, 0
-    if not ctx.replay or '"op":"tlsclient"' in open(ctx.replay).read(4096) or '"op":"cmauth"' in open(ctx.replay).read(4096):
+    if not ctx.replay or '"op":"tlsclient"' in open(ctx.replay).read(4096) or '"op":"cmauth"' in open(ctx.replay).read(4096) or '"op":"offload"' in open(ctx.replay).read(4096):
         b3 = ctx.go_test_binary(PKG3, HARNESS3, "c15tls")
         if b3 is None:
             ctx.oblige("harness-builds:grpc.newServerTLSConfig", False, ctx.harness_error[-1200:])
@@ -229,6 +231,15 @@ def run(ctx):
                 tls_lines = len(impl3)
                 for k, l in enumerate(impl3):
                     j = json.loads(ops3[k])
+                    if j["op"] == "offload":
+                        # TLS offloading interceptor: a certificate is taken over only from EXACTLY ONE header value that holds one certificate
+                        okv = len(j["values"]) == 1 and j["values"][0] in ("victim", "proxy")
+                        if l.startswith("offload cert=") and not okv:
+                            t_bad += 1
+                            if any("offloaded-certificate" in v[1] for v in ctx.violations):
+                                continue
+                            ctx.violation("C15:offloaded-certificate-taken-from-ambiguous-header", f"tlsOffloadingAuthenticator accepted header values {j['values']} -> {l}", "offload.jsonl", ops3[k])
+                        continue
                     if j["op"] == "cmauth":
                         # connection manager wrapper: authenticated only if a DID was claimed and the LEAF certificate covers its NutsComm host
                         if "auth=true" in l and not (j["claimed"] != "" and j["cert"] and j["leaf_covers"]):
